@@ -434,7 +434,18 @@ pub fn build_rdata(code: u16, f: &[FVal]) -> Option<RData<'static>> {
             if path == 1 {
                 t = t.into_owned();
             }
-            for (_, s) in strings {
+            // every other value also sees calls that are refused (a text longer than a character-string can hold) and whose
+            // error the caller ignores: a refused call must leave the value as it was
+            let refuse = strings.len() % 2 == 1;
+            let too_long: &'static str = "xxxxxxxxxxxxxxxxxxxxxxxxxxxxxxxxxxxxxxxxxxxxxxxxxxxxxxxxxxxxxxxxxxxxxxxxxxxxxxxxxxxxxxxxxxxxxxxxxxxxxxxxxxxxxxxxxxxxxxxxxxxxxxxxxxxxxxxxxxxxxxxxxxxxxxxxxxxxxxxxxxxxxxxxxxxxxxxxxxxxxxxxxxxxxxxxxxxxxxxxxxxxxxxxxxxxxxxxxxxxxxxxxxxxxxxxxxxxxxxxxxxxxxxxxxxxxxxxxxxxxxxxxxxxxxxxxxxxxxxxxxxxxxxxxxxxxxxxxxxx";
+            if refuse {
+                let _ = t.add_string(too_long);
+            }
+            for (k, (_, s)) in strings.into_iter().enumerate() {
+                if refuse && k == 1 {
+                    let _ = t.add_string(too_long);
+                    let _ = t.clone().with_string(too_long);
+                }
                 let cs = CharacterString::new(&s).ok()?.into_owned();
                 if path == 2 {
                     t = t.with_char_string(cs);
